@@ -235,7 +235,7 @@ def run(pid, tier):
     stats = {"calls": 0, "with_overrides": 0, "generate_one_valid": 0, "ops_with_body": 0, "error_calls": 0}
     lines, expect, meta = [], [], []
     for d in range(n_desc):
-        desc = oagen.description(rng, rng.choice([2, 3, 4]), arrays=True)
+        desc = oagen.description(rng, rng.choice([2, 3, 4]), arrays=True, twins=True)
         hs = [gen_history(rng, desc, rng.choice([2, 3, 5, 8]))]
         if tier == "thorough" and d % 10 == 0:
             ops = fresh_ops(desc)
